@@ -19,6 +19,8 @@ ServerAgrees == phase = "done" => MechServer(def) = PropServer(def)
 ProducesAgrees == phase = "done" => MechProduces(def.class) = PropProduces(def.class)
 ClientAgrees == phase = "done" => MechClient(def) = PropClient(def)
 (* the same method on both sides; deprecation only on the caller's side *)
-SidesConsistent == phase = "done" => MechServer(def).method = MechClient(def).method /\ ~MechServer(def).deprecated
+(* the client's Endpoint extension names the endpoint and its template exactly as the server trait does *)
+SidesConsistent == phase = "done" => /\ MechServer(def).method = MechClient(def).method /\ ~MechServer(def).deprecated
+                                      /\ MechClient(def).ext.name = MechServer(def).name /\ MechClient(def).ext.path = MechServer(def).path
 Emit == phase = "done" => PrintT(<<"CASE", ToJson([def |-> def, server |-> PropServer(def), client |-> PropClient(def), mech |-> MechProduces(def.class)])>>)
 =============================================================================
